@@ -33,6 +33,10 @@ func runC08(c *Ctx) {
 		}
 	})
 
+	c.rule("C08.O5", "index commit is one durable step: each index operation (append: entries + tip; rollback: tip + deletions) is exactly one database transaction, so a crash cannot leave the tip pointer and the hash entries out of step", func() {
+		c.indexAtomic()
+	})
+
 	c.rule("C08.O3", "cross-store order: rollBackToHeight rolls the filter store back before the block store in each step; the import writes block headers before filter headers and rolls the block store back when the filter write fails; handleHeadersMsg commits its batch with a single WriteHeaders call", func() {
 		fhsRoll := c.method("headerfs", "FilterHeaderStore", "RollbackLastBlock")
 		bhsRoll := c.method("headerfs", "BlockHeaderStore", "RollbackLastBlock")
